@@ -86,6 +86,32 @@ Theorem C12_succeeds : forall hd sp ip ap inf inp r,
 Proof. exact c12_succeeds. Qed.
 Print Assumptions C12_succeeds.
 
+(* ... and with the last error return closed: if the ORIGINAL file control — count, totals, and the
+   entry hash as the routing numbers of the entries cut to ten digits — passes FileControl.Validate
+   (Arith.validate_fctl; this also bounds the totals), so does the new control, which carries the
+   same figures (the truncated sum of truncated batch hashes is the truncated sum of all routing
+   numbers): FlattenBatches returns no error. *)
+Theorem C12_succeeds_ok : forall hd sp ip ap inf inp r,
+  std_file inp -> inp <> nil -> i_hdr_ok inf = true ->
+  kinds_consistent inp -> Forall traces_nodup inp ->
+  Forall (fun b => Arith.validate_batch GA (f_batch GA (hp_of hd) (fp_of sp) b) = Arith.ROk) inp ->
+  Forall (hdr_pair hd) (ids inp) ->
+  i_count inf = sum_ids cnt_e inp -> i_debit inf = sum_ids (db_e GT sp) inp -> i_credit inf = sum_ids (cr_e GT sp) inp ->
+  cat_rule inp ->
+  (forall p, In p (ids inp) -> 0 <= rd_e sp (snd p)) ->
+  Arith.validate_fctl GA (Arith.mkfctl 1 (i_count inf) ((sum_ids (rd_e sp) inp) mod Offsets.P10) (i_debit inf) (i_credit inf)) = Arith.ROk ->
+  flatten_full_spec GA GT GTT hd sp ip ap inf inp r ->
+  fst r = FOk.
+Proof. exact c12_succeeds_ok. Qed.
+Print Assumptions C12_succeeds_ok.
+
+(* non-vacuity of the two additional hypotheses (the others: C12_succeeds_example) *)
+Theorem C12_succeeds_ok_example :
+  (forall p, In p (ids ex_inp) -> 0 <= rd_e fx_sp (snd p)) /\
+  Arith.validate_fctl GA (Arith.mkfctl 1 (i_count fx_inf) ((sum_ids (rd_e fx_sp) ex_inp) mod Offsets.P10) (i_debit fx_inf) (i_credit fx_inf)) = Arith.ROk.
+Proof. exact fx_ctl_hyps. Qed.
+Print Assumptions C12_succeeds_ok_example.
+
 (* Without the category rule the statement is false of the code: a valid file — every hypothesis
    above but the rule, every batch passing isCategory and holding one category — on which the whole
    function returns File.Create's error with no batch added (known finding
